@@ -375,9 +375,10 @@ func applyLockRequests(wvs *worldVirtualState, reqs []LockRequest) {
 		if req.ID != WorldIDStr {
 			continue
 		}
-		if req.Lock > wvs.worldLock {
-			wvs.worldLock = req.Lock
-		}
+		// A world read lock cannot be isolated from later writers (they are not
+		// made to wait for the reader and write into the shared real state), so
+		// any world lock is served as a write lock.
+		wvs.worldLock = AccountWriteLock
 	}
 
 	// If there is world write lock request, no individual lock is required.
